@@ -9,7 +9,9 @@ REG.contract('C11', I, 'sanitize_permissions', variant='preserve', params={'path
              note="install_umask 'preserve': permissions are left alone")
 REG.contract('C11', I, 'sanitize_permissions', variant='umask', params={'path': Str, 'umask': Int},
              ensures=[f"len({EV}) == 1 and {EV}[0][0] == 'set_chmod' and {EV}[0][1] == path",
-                      f"{EV}[0][2] == ((0o777 if fn_is_executable(path) else 0o666) & ~umask)"],
+                      f"{EV}[0][2] == ((0o777 if fn_is_executable(path) else 0o666) & ~umask)",
+                      # the installed path itself, never what a symbolic link points to (which may lie outside DESTDIR)
+                      f"kw({EV}[0], 'follow_symlinks', True) is False"],
              effects={'set_chmod': ['PermissionError']}, opaque_fns={'is_executable': ([Str], Bool)}, floor=4,
              note='default permissions (0777 for executables, 0666 otherwise) masked by the umask; a PermissionError is reported, not fatal')
 
